@@ -9,12 +9,14 @@
    included resources when their IDs are distinct.  Marshaling reads resources
    only through Get: nothing else can change (pure model; the Go side compares
    all readings before and after).
-   NOT PROVED: invariance under the iteration order of the attribute /
-   relationship maps -- every correspondence case compares the model, which
-   walks them in one fixed order, with Go's randomised iteration. *)
+   [C11_map_iteration_order]: a resource object does not depend on the order
+   in which the attribute and relationship maps of its type are walked (Go's
+   randomised map iteration): any two walks over the same entries give the
+   same tree.  (At document level the same holds member by member; each
+   correspondence case also pits the model's order against Go's.) *)
 From Coq Require Import Permutation.
 From JV Require Import Model.Base Model.GoTime Gen.TypeGo Model.Schema Model.Value
-  Model.Json Model.Resource Model.Marshal Model.Unmarshal Model.Document Proofs.C11Facts.
+  Model.Json Model.Resource Model.Marshal Model.Unmarshal Model.Document Proofs.C11Facts Proofs.C11Order.
 
 Theorem C11_tomany_order : forall ids1 ids2,
   Permutation ids1 ids2 -> isort String.ltb ids1 = isort String.ltb ids2.
@@ -48,3 +50,16 @@ Theorem C11_document_content_only : forall e d1 d2 f1 f2 self,
   marshal_document e d1 f1 self = marshal_document e d2 f2 self.
 Proof. exact marshal_document_content. Qed.
 Print Assumptions C11_document_content_only.
+
+Theorem C11_map_iteration_order : forall e r1 r2 prepath fields reldata,
+  res_type_name r1 = res_type_name r2 ->
+  (forall k, res_get r1 k = res_get r2 k) ->
+  Permutation (res_attrs r1) (res_attrs r2) ->
+  Permutation (res_rels r1) (res_rels r2) ->
+  NoDup (map (fun kv => aname (snd kv)) (res_attrs r1)) ->
+  NoDup (map (fun kv => from_name (snd kv)) (res_rels r1)) ->
+  (forall kv, In kv (res_attrs r1) -> exists v, res_get r1 (aname (snd kv)) = Ok v) ->
+  (forall kv, In kv (res_rels r1) -> rel_read_ok r1 (snd kv)) ->
+  marshal_resource e r1 prepath fields reldata = marshal_resource e r2 prepath fields reldata.
+Proof. exact marshal_resource_map_order. Qed.
+Print Assumptions C11_map_iteration_order.
